@@ -322,11 +322,42 @@ def run(ctx, rep):
             rep.underivable(key, "keep condition decidable on class representatives", construct=where, why=tm.show(kept, 4)[:200])
     # monotonicity: existence of further components can only keep more
     neg = False
+    pol_memo = {}
+
+    def is_exists(y):
+        return y.op == "any" and y.a[0].op == "iter" and y.a[0].a[0] is data
+
+    def mentions_exists(x):
+        r = pol_memo.get(("m", x.id))
+        if r is None:
+            r = any(is_exists(y) for y in tm.subterms(x))
+            pol_memo[("m", x.id)] = r
+        return r
+
+    def negative(x, pol):
+        """does an existence test over the components occur with negative (or unknown) polarity in x?"""
+        k = (x.id, pol)
+        if k in pol_memo:
+            return pol_memo[k]
+        pol_memo[k] = False
+        if is_exists(x):
+            r = pol <= 0
+        elif not mentions_exists(x):
+            r = False
+        elif x.op == "not":
+            r = negative(x.a[0], -pol)
+        elif x.op in ("and", "or"):
+            r = any(negative(y, pol) for y in x.a)
+        elif x.op == "ite":
+            r = negative(x.a[0], 0) or negative(x.a[1], pol) or negative(x.a[2], pol)
+        else:
+            r = True        # inside a comparison or another operator: polarity unknown
+        pol_memo[k] = r
+        return r
     for k in A.keys:
         p, _v = m[k]
-        for x in tm.subterms(p):
-            if x.op == "not" and any(y.op == "any" and y.a[0].op == "iter" and y.a[0].a[0] is data for y in tm.subterms(x.a[0])):
-                neg = True
+        if negative(p, 1):
+            neg = True
     if neg:
         rep.violated("C08/S2/monotone", "adding components never removes a needed factor", construct=where,
                      why="a retain predicate depends negatively on the existence of a component class")
